@@ -161,16 +161,20 @@ def main(rec):
             combos = singles + [all_combos[-1]] + r.sample(all_combos[1:-1], 2)
         nd = len(decl_entries(d))
         placements = [("library", None)]
-        if name in light:
+        if name in light and "callback" not in name:
             combos = [dict(off, debug=True), all_combos[-1]]
             nd = 0
-        if nd:
+        if nd and "callback" in name:
+            # declarations that share generated entities (abstract interfaces of callbacks): each one toggled alone
+            for i_ in range(nd):
+                placements.append(("decl%d" % i_, [i_]))
+        elif nd:
             pick = sorted(r.sample(range(nd), max(1, nd // 2)))
             placements.append(("decl", pick))
         for place, pick in placements:
             runs = [off] + combos if place == "library" else [off] + (combos if thorough else combos[:3] + [all_combos[-1]])
             for combo in runs:
-                if place == "decl" and not (combo["debug"] or combo["doxygen"] or combo["literalinclude"]) and combo is not off:
+                if place.startswith("decl") and not (combo["debug"] or combo["doxygen"] or combo["literalinclude"]) and combo is not off:
                     continue
                 y = workloads.dump_yaml(variant(d, combo, pick))
                 a = list(argv) + (["--write-version"] if combo["write_version"] else ["--nowrite-version"]) + [yrel]
